@@ -1,5 +1,5 @@
 (* C16 — grid search enumerates the whole space without repetition.  Statements only. *)
-Require Import Base Converter Grid ListFacts GridFacts C16_proofs.
+Require Import Base PyPrims PyPrimsQ Converter Grid ListFacts GridFacts C16_proofs GridGen GridTie.
 From Coq Require Import Znumtheory.
 
 (* diagonal direction: for every dimension-size tuple (all >= 1, any number of dimensions), every step
@@ -25,3 +25,36 @@ Example C16_diag_offbyone_refuted_unfixed :
   diag_run_gen pass_finished_unfixed 4 [4] 1 1 diag_init = Ok [[0]; [1]; [2]; [1]] /\
   diag_run 4 [4] 1 1 diag_init = Ok [[0]; [1]; [2]; [3]].
 Proof. exact diag_offbyone_unfixed. Qed.
+
+(* ---------- the same for the definitions GENERATED from /repo's grid-search source (generated/GridGen.v) ----------
+   g_diag_run / g_orth_run: the translated iterate, followed by the tracker's nth_trial += 1, repeated.  Assumptions
+   (observables the K/S-units compare): no constraints, conv2pos is the identity inside the box, d0 >= 1 is the float
+   root guess; fuel |d0| + 2 suffices for the direction search and the `while True` of iterate *)
+Theorem C16_source_diag_covers : forall (dims : list Z) (s d0 : Z) (conv2pos : pos -> pos) (mr : res pos),
+  Forall (fun d => 1 <= d) dims -> dims <> [] -> 0 < s -> (s | zprod dims) -> 1 <= d0 ->
+  (forall dims p, in_dims dims p -> conv2pos p = p) ->
+  exists ps, g_diag_run d0 conv2pos mr (S (Z.to_nat d0 + 1)) (Z.to_nat (zprod dims)) (g_diag_init dims s) = Ok ps /\
+             NoDup ps /\ Forall (in_dims dims) ps /\ length ps = Z.to_nat (zprod dims) /\
+             (forall p, in_dims dims p -> In p ps).
+Proof. exact source_diag_covers. Qed.
+Print Assumptions C16_source_diag_covers.
+
+Theorem C16_source_orth_covers : forall (dims : list Z) (s : Z) (conv2pos : pos -> pos),
+  Forall (fun d => 1 <= d) dims -> 0 < s -> (s | zprod dims) ->
+  (forall dims p, in_dims dims p -> conv2pos p = p) ->
+  exists ps, g_orth_run conv2pos (Z.to_nat (zprod dims)) (go_of dims s 0) = Ok ps /\
+             NoDup ps /\ Forall (in_dims dims) ps /\ length ps = Z.to_nat (zprod dims) /\
+             (forall p, in_dims dims p -> In p ps).
+Proof. exact source_orth_covers. Qed.
+Print Assumptions C16_source_orth_covers.
+
+(* the translated position decoders are the model's decoders *)
+Theorem C16_source_grid_move_refines : forall dims s st, Forall (fun d => 1 <= d) dims -> dims <> [] ->
+  g_diag_grid_move (g_of dims s st) = Ok (g_of dims s st, decode_be dims (dg_ptr st)).
+Proof. exact diag_grid_move_tie. Qed.
+Print Assumptions C16_source_grid_move_refines.
+
+Example C16_source_nonvacuous :
+  g_diag_run 2 (fun p => p) (Err OutOfTape) 4 6 (g_diag_init [2; 3] 2) = Ok [[0; 0]; [0; 2]; [1; 1]; [0; 1]; [1; 0]; [1; 2]] /\
+  g_orth_run (fun p => p) 6 (go_of [2; 3] 1 0) = Ok [[0; 0]; [1; 0]; [0; 1]; [1; 1]; [0; 2]; [1; 2]].
+Proof. vm_compute. split; reflexivity. Qed.
